@@ -30,6 +30,8 @@ class Unrecognised(Exception):
     pass
 
 
+OUTPUTS = ["RubikTables.v"]
+
 def _fail(node, msg):
     raise Unrecognised("rubik_tables: %s (line %s): %s" % (msg, getattr(node, "lineno", "?"),
                                                            ast.dump(node)[:300] if isinstance(node, ast.AST) else node))
